@@ -9,6 +9,17 @@ Definition dk_eqb (a b : dkind) : bool := if dkind_eq_dec a b then true else fal
 Lemma dk_eqb_eq a b : dk_eqb a b = true <-> a = b.
 Proof. unfold dk_eqb; destruct (dkind_eq_dec a b); split; congruence. Qed.
 
+Local Open Scope Z_scope.
+Definition psc_type_of_word (w : str) : option dkind :=
+  if str_eqb w (str_of_string "INTEGER") then Some KInt
+  else if str_eqb w (str_of_string "REAL") then Some KReal
+  else if str_eqb w (str_of_string "BOOLEAN") then Some KBool
+  else if str_eqb w (str_of_string "CHAR") then Some KChar
+  else if str_eqb w (str_of_string "STRING") then Some KStr
+  else if str_eqb w (str_of_string "DATE") then Some KDate
+  else None.
+
+
 Inductive fmode := FRead | FWrite | FAppend | FRandom.
 
 Inductive node :=
